@@ -10,7 +10,7 @@
    produces such streams. *)
 From V Require Import Base.Prelude Base.Prog Meta.Model Flate.Spec
   XFlate.Index XFlate.Search XFlate.Reader.
-Open Scope Z_scope.
+Local Open Scope Z_scope.
 
 (* ---- small list facts ---------------------------------------------------- *)
 Lemma last_nth_rec (T : list record) : T <> [] -> last_record T = nth_rec T (zlen T - 1).
